@@ -122,11 +122,18 @@ def create_warning(
         from sphinx.util.logging import getLogger
 
         logger = getLogger(__name__)
+        if node is not None:
+            location = node
+        else:
+            # note, sphinx would read a `(path, line)` tuple as `(docname, line)`,
+            # and append a source suffix to the path (`index.md.rst:1`)
+            location = nodes.Element()
+            location.source, location.line = document["source"], line
         logger.warning(
             message,
             type=type_str,
             subtype=subtype_str,
-            location=node if node is not None else (document["source"], line),
+            location=location,
         )
         if _is_suppressed_warning(
             type_str, subtype_str, document.settings.env.config.suppress_warnings
